@@ -8,6 +8,9 @@ Three exhaustively enumerated case kinds:
   mean : for every reference-legal form of a sub-space: pin (x, y, w) to <= 6 points placed at distance 0.1 on both
          sides of the written inequality, solve the compiled program, feasible <=> the written inequality holds by
          the closed forms (R-atoms); objectives: optimum == closed-form value of the written expression.
+  bc   : element-wise atoms (square, abs, exp, softplus, power, pexp, log, plog) of shape (3,), (), (1,3) written against a
+         raw variable / affine expression / constant array T of shape (2,3) in 7 forms: NumPy broadcasting of the written
+         inequality decides; with x pinned all 6 rows must bind (min / max sum T) or hold (constant T).
   bil  : every operand-class pair under `*` and `@`: pairs sharing a dependence (decision x decision,
          random x random, rule/adaptive/bi-affine x random or x decision) must raise no later than st().
 """
@@ -65,6 +68,21 @@ def bil_must_raise(l, r):
     return bool(set(BIL_DEP[l]) & set(BIL_DEP[r]))
 
 
+# ---- broadcast family: element-wise atom of shape (3,) / () / (1,3) against T of shape (2,3) ------------------------
+BC_ATOMS = {   # name: (curvature, numpy closed form, positive domain)
+    'square': (+1, lambda v: v ** 2, False), 'abs': (+1, lambda v: abs(v), False),
+    'exp': (+1, lambda v: __import__('numpy').exp(v), False), 'softplus': (+1, lambda v: __import__('numpy').log1p(__import__('numpy').exp(v)), False),
+    'power3': (+1, lambda v: abs(v) ** 3, False), 'pexp': (+1, lambda v: 1.5 * __import__('numpy').exp(v / 1.5), False),
+    'log': (-1, lambda v: __import__('numpy').log(v), True), 'plog': (-1, lambda v: 1.5 * __import__('numpy').log(v / 1.5), True),
+}
+BC_XSHAPES = [(3,), (), (1, 3)]
+# written for a convex f (concave atoms use the mirrored inequality); (a, b): the inequality means T >= a*f(x) + b
+BC_FORMS = {'f<=T': (1.0, 0.0), 'T>=f': (1.0, 0.0), 'T-1>=2f': (2.0, 1.0), '3f-2T<=0': (1.5, 0.0), 'f-T<=0': (1.0, 0.0),
+            '-T+f<=0': (1.0, 0.0), 'f+1<=T': (1.0, 1.0)}
+BC_TKINDS = ['var', 'affine', 'const']
+BC_TSHAPE = (2, 3)
+
+
 # ---- enumeration ------------------------------------------------------------------------------------------
 def _chains(alpha, n):
     return [list(c) for c in itertools.product(alpha, repeat=n)]
@@ -118,6 +136,13 @@ def gen_cases(tier, seed):
                 continue
             for op in ('mul', 'matmul'):
                 yield {'k': 'bil', 'fe': fe, 'l': l, 'r': r, 'op': op}
+    # 1b. shape broadcasting of element-wise atoms against an offset / right-hand side of a strictly larger shape
+    for fe in FES:
+        for atom in BC_ATOMS:
+            for xshape in BC_XSHAPES:
+                for form in BC_FORMS:
+                    for tkind in BC_TKINDS:
+                        yield {'k': 'bc', 'fe': fe, 'atom': atom, 'xshape': list(xshape), 'form': form, 'tkind': tkind}
     # 2. acceptance decisions and meaning, shallow chains first
     for depth in (0, 1):
         for fe in FES:
@@ -219,6 +244,8 @@ def bounds(tier):
             'perspective_family': {'atoms': R.PERSP_ATOMS, 'pre': R.PERSP_PRE, 'scaling': R.PERSP_MUL,
                                    'post': R.PERSP_POST},
             'expectation_inside': {'atoms': R.INSIDE_ATOMS, 'acc_depth': 3 if th else 2, 'meaning_depth': 2},
+            'broadcast_family': {'atoms': list(BC_ATOMS), 'x_shapes': BC_XSHAPES, 'T_shape': BC_TSHAPE,
+                                 'forms': list(BC_FORMS), 'T_kinds': BC_TKINDS},
             'palettes': 4 if th else 1, 'bilinear_classes': BIL_CLASSES}
 
 
@@ -241,6 +268,8 @@ def run_case(case):
         return _run_mean(case)
     if k == 'bil':
         return _run_bil(case)
+    if k == 'bc':
+        return _run_bc(case)
     raise ValueError(k)
 
 
@@ -470,6 +499,117 @@ def _run_mean(case):
     return {'status': 'pass', 'outcome': 'meaning-ok(%s)' % ('both-sides' if decided[True] and decided[False] else 'one-side'),
             'ops': ops, 'nontrivial': bool(decided[True] and decided[False] and inconc == 0),
             'states': len(pts), 'validated': decided[True] + decided[False]}
+
+
+# ---- broadcast family -----------------------------------------------------------------------------------------
+def _bc_constraint(rso, f, T, form, cv):
+    """the written inequality; for a concave atom every inequality is mirrored (f >= T, T + 1 <= 2f, ...)"""
+    if cv > 0:
+        return {'f<=T': lambda: f <= T, 'T>=f': lambda: T >= f, 'T-1>=2f': lambda: T - 1 >= 2 * f,
+                '3f-2T<=0': lambda: 3 * f - 2 * T <= 0, 'f-T<=0': lambda: f - T <= 0, '-T+f<=0': lambda: -T + f <= 0,
+                'f+1<=T': lambda: f + 1 <= T}[form]()
+    return {'f<=T': lambda: f >= T, 'T>=f': lambda: T <= f, 'T-1>=2f': lambda: T + 1 <= 2 * f,
+            '3f-2T<=0': lambda: 3 * f - 2 * T >= 0, 'f-T<=0': lambda: f - T >= 0, '-T+f<=0': lambda: -T + f >= 0,
+            'f+1<=T': lambda: f - 1 >= T}[form]()
+
+
+def _run_bc(case):
+    import numpy as np
+    B = _B['B']
+    rs = B.init()
+    rso = rs['rso']
+    fe, atom, xshape, form, tkind = case['fe'], case['atom'], tuple(case['xshape']), case['form'], case['tkind']
+    cv, fnp, pos = BC_ATOMS[atom]
+    a, b = BC_FORMS[form]
+    if cv < 0:
+        b = -b                      # mirrored forms:  T <= a*g(x) + b'
+    base = np.array([0.5, 1.5, 2.0]) if pos else np.array([0.5, -1.5, 2.0])
+    xv = base[0] if xshape == () else base.reshape(xshape)
+    want = np.broadcast_to(a * fnp(np.asarray(xv, dtype=float)) + b, BC_TSHAPE).astype(float)   # NumPy's meaning
+    tag = 'bc|%s|%s|x%s|%s|%s' % (fe, atom, 'x'.join(map(str, xshape)) or '()', form, tkind)
+    ops = 0
+
+    def build(K=None):
+        m = rs['ro'].Model() if fe == 'ro' else rs['dro'].Model(2)
+        x = m.dvar(xshape)
+        sc = m.dvar()
+        U = m.dvar(BC_TSHAPE)
+        if atom in ('pexp', 'plog'):
+            f = rso.pexp(x, sc) if atom == 'pexp' else rso.plog(x, sc)
+            m.st(sc == 1.5)
+        else:
+            f = {'square': rso.square, 'abs': abs, 'exp': rso.exp, 'softplus': rso.softplus,
+                 'power3': lambda v: rso.power(v, 3), 'log': rso.log}[atom](x)
+        if tkind == 'var':
+            T = U
+        elif tkind == 'affine':
+            T = 2 * U - 1
+        else:
+            T = K
+        m.st(_bc_constraint(rso, f, T, form, cv))
+        m.st(x == xv)
+        return m, U, T
+
+    try:
+        if tkind == 'const':
+            # all m*n rows must hold: a constant T that violates one entry of the LAST row must be infeasible
+            res = {}
+            for name, delta in (('ok', 0.1), ('bad', -0.1)):
+                K = want + cv * 0.1
+                if name == 'bad':
+                    K = K.copy()
+                    K[-1, -1] = want[-1, -1] - cv * 0.1
+                m, U, T = build(K)
+                m.st(U == 0)
+                m.min(U.sum()) if fe == 'ro' else m.min(U.sum())
+                if atom == 'square':
+                    # ECOS reports 'numerical problems' for an infeasible rotated cone with a pinned argument: Gurobi
+                    m.solve(rs['grb'], display=False)
+                    st = str(m.solution.status) if m.solution is not None else 'none'
+                    res[name] = {'2': 'Optimal solution found', '3': 'Primal infeasible',
+                                 '4': 'Primal infeasible'}.get(st, st)     # (objective is the constant 0)
+                else:
+                    m.solve(rs['eco'], display=False)
+                    res[name] = str(m.solution.status) if m.solution is not None else 'none'
+                ops += 8
+            okf = res['ok'] == 'Optimal solution found'
+            badi = res['bad'] == 'Primal infeasible'
+            if res['ok'] not in ('Optimal solution found', 'Primal infeasible') or \
+                    res['bad'] not in ('Optimal solution found', 'Primal infeasible'):
+                return {'status': 'vacuous', 'outcome': 'bc-solver-inconclusive', 'ops': ops}
+            if okf and badi:
+                return {'status': 'pass', 'outcome': 'bc-const-ok', 'ops': ops, 'nontrivial': True, 'validated': 2}
+            return {'status': 'violation', 'ops': ops, 'sig': tag + '|' + ('feasible-but-a-broadcast-row-is-violated'
+                                                                         if not badi else 'infeasible-but-all-rows-hold'),
+                    'detail': 'constant T of shape (2,3): all rows satisfied -> %s; last entry violated by 0.1 -> %s'
+                              % (res['ok'], res['bad'])}
+        m, U, T = build()
+        obj = T.sum() if tkind == 'var' else (2 * U - 1).sum()
+        if cv > 0:
+            m.min(obj)
+        else:
+            m.max(obj)
+        m.solve(rs['eco'], display=False)
+        ops += 9
+        if m.solution is None or str(m.solution.status) != 'Optimal solution found':
+            st = 'none' if m.solution is None else str(m.solution.status)
+            if st in ('Dual infeasible', 'Primal infeasible'):
+                return {'status': 'violation', 'ops': ops, 'sig': tag + '|' + st.replace(' ', '-').lower(),
+                        'detail': 'x pinned: every T[i,j] is bounded by the written inequality (expected %s), program is %s'
+                                  % (np.round(want, 4).tolist(), st)}
+            return {'status': 'vacuous', 'outcome': 'bc-solver-inconclusive:' + st[:20], 'ops': ops}
+        Uv = np.array(U.get(), dtype=float)
+        if isinstance(U.get(), type(None)):
+            return {'status': 'vacuous', 'outcome': 'bc-no-values', 'ops': ops}
+        got = Uv if tkind == 'var' else 2 * Uv - 1
+    except Exception as ex:  # noqa
+        return {'status': 'unsupported', 'outcome': 'bc-raises:%s(%s)' % (type(ex).__name__, atom), 'ops': ops}
+    err = np.max(np.abs(got - want) / (1 + np.abs(want)))
+    if err > 1e-3:
+        return {'status': 'violation', 'ops': ops, 'sig': tag + '|rows-not-binding',
+                'detail': 'x=%s pinned, optimum T=%s, NumPy broadcasting of the written inequality gives %s'
+                          % (np.asarray(xv).tolist(), np.round(got, 4).tolist(), np.round(want, 4).tolist())}
+    return {'status': 'pass', 'outcome': 'bc-rows-bind', 'ops': ops, 'nontrivial': True, 'validated': 6}
 
 
 # ---- bilinear table -------------------------------------------------------------------------------------------
